@@ -1,11 +1,11 @@
 package props
 
 import (
-	"strconv"
-	"regexp"
 	"fmt"
 	"go/types"
+	"regexp"
 	"sort"
+	"strconv"
 	"strings"
 
 	"golang.org/x/tools/go/ssa"
